@@ -35,6 +35,7 @@ def step (d : St) (line : String) : St × String :=
   match Drv.words line with
   | ["cfg", a, b, c, e] =>
     ({ cfg := { isServer := a = "1", hasManager := b = "1", hasListener := c = "1", listenerEpoch := Drv.nat! e }, c := {} }, "ok")
+  | ["honest"] => (d, "ok")     -- marker of the generator: only complete events were sent (the harness checks that nothing waits)
   | ["feed", h] =>
     let c' := feed d.cfg d.c (parseHex h.toList)
     ({ d with c := c' }, summary c')
